@@ -310,3 +310,44 @@ func CellLoads(a *ssa.Alloc) []*ssa.UnOp {
 	}
 	return out
 }
+
+// ResolveLocalLoad follows a load of a non-escaping local cell back to the value last stored
+// into it on the straight-line path that leads to the load: backwards through the load's
+// block and, while a block has a single predecessor, through that predecessor. It returns v
+// itself when the path forks before a store is found. (Named results that are assigned several
+// times — `name, err := f(); if err != nil { return err }` repeated — make every `return err`
+// a load of one cell with many stores; which store reaches a given return is decided by the
+// path, and on the error edge of a call that path is a straight line.)
+func ResolveLocalLoad(v ssa.Value) ssa.Value {
+	for depth := 0; depth < 6; depth++ {
+		u, ok := v.(*ssa.UnOp)
+		if !ok || u.Op != token.MUL {
+			return v
+		}
+		cell, ok := u.X.(*ssa.Alloc)
+		if !ok || CellEscapes(cell) {
+			return v
+		}
+		b := u.Block()
+		idx := idxIn(b, u)
+		var found ssa.Value
+		for hops := 0; hops < 8 && found == nil; hops++ {
+			for i := idx - 1; i >= 0; i-- {
+				if st, ok := b.Instrs[i].(*ssa.Store); ok && st.Addr == ssa.Value(cell) {
+					found = st.Val
+					break
+				}
+			}
+			if found != nil || len(b.Preds) != 1 {
+				break
+			}
+			b = b.Preds[0]
+			idx = len(b.Instrs)
+		}
+		if found == nil {
+			return v
+		}
+		v = found
+	}
+	return v
+}
